@@ -147,7 +147,7 @@ def real10_variant(m, e, form):
     return None
 
 
-def real_content(v, shift=0, canonical10=True, form10=0):
+def real_content(v, shift=0, canonical10=True, form10=0, binform=None):
     if v == 0:
         return b''
     if v == 'inf':
@@ -166,17 +166,28 @@ def real_content(v, shift=0, canonical10=True, form10=0):
         if shift:                  # BER only: any mantissa is allowed
             m <<= shift
             e -= shift
+        bsel, f, expform = 0, 0, 0
+        if binform:
+            # BER only (X.690 8.5.7): base 8 / 16, a scaling factor F, and the four ways of saying how long the exponent is
+            bsel, f, expform = binform
+            k = (1, 3, 4)[bsel]
+            e2 = e - f
+            big_e = e2 // k                  # floor division: 0 <= r < k
+            r = e2 - k * big_e
+            m <<= r
+            e = big_e
         eo = int_content(e)
-        if len(eo) == 1:
-            fo, pre = 0, b''
-        elif len(eo) == 2:
-            fo, pre = 1, b''
-        elif len(eo) == 3:
-            fo, pre = 2, b''
-        else:
+        if expform == 3 or len(eo) > 3:
+            # 8.5.7.4 d: length-prefixed, the exponent itself minimal
             fo, pre = 3, bytes([len(eo)])
+        else:
+            if expform in (1, 2):
+                # 8.5.7.4 a-c do not ask for the shortest form: one or two octets of sign extension
+                want = min(3, len(eo) + expform)
+                eo = e.to_bytes(want, 'big', signed=True)
+            fo, pre = len(eo) - 1, b''
         mo = m.to_bytes((m.bit_length() + 7) // 8, 'big')
-        return bytes([0x80 | sign | fo]) + pre + eo + mo
+        return bytes([0x80 | sign | (bsel << 4) | (f << 2) | fo]) + pre + eo + mo
     if b == 10:
         # ISO 6093 NR3 as restricted by X.690 11.3.2
         while m % 10 == 0:
@@ -231,6 +242,9 @@ class Der(object):
 
     def real10_form(self, path=''):
         return 0
+
+    def real_bin_form(self, path=''):
+        return None
 
     def permute(self, n, what, path=''):
         return None
@@ -346,6 +360,13 @@ class Recording(object):
         self.script['F' + path] = r
         return r
 
+    def real_bin_form(self, path=''):
+        r = self.inner.real_bin_form(path) if hasattr(self.inner, 'real_bin_form') else None
+        if r:
+            self._note('real_bin_form')
+        self.script['B' + path] = list(r) if r else None
+        return r
+
     def permute(self, n, what, path=''):
         r = self.inner.permute(n, what, path)
         if r is not None and list(r) != list(range(n)):
@@ -398,6 +419,10 @@ class Replay(object):
 
     def real10_form(self, path=''):
         return int(self.s.get('F' + path, 0))
+
+    def real_bin_form(self, path=''):
+        r = self.s.get('B' + path)
+        return tuple(int(x) for x in r) if r else None
 
     def permute(self, n, what, path=''):
         return self.s.get('P' + path)
@@ -485,7 +510,8 @@ def _encode_base(T, v, tag, ch, path=''):
     if k == 'OID':
         return _tl(cls, False, num, oid_content(v), ch, False, path)
     if k == 'REAL':
-        return _tl(cls, False, num, real_content(v, ch.real_shift(path), form10=ch.real10_form(path) if hasattr(ch, 'real10_form') else 0), ch, False, path)
+        return _tl(cls, False, num, real_content(v, ch.real_shift(path), form10=ch.real10_form(path) if hasattr(ch, 'real10_form') else 0,
+                                                  binform=ch.real_bin_form(path) if hasattr(ch, 'real_bin_form') else None), ch, False, path)
     if k == 'BITSTRING':
         unused, data = bits_content(v)
         return _string_tlv(cls, num, data, unused, True, ch.segments(len(data), True, path), ch, path)
